@@ -220,6 +220,7 @@ async def _drive(real, script):
         end = {"was_alive": was_alive, "done": done, "epilogue": "ok" if exc is None else
                ("zerodiv" if isinstance(exc, ZeroDivisionError) else "raised:" + type(exc).__name__),
                "end": "eof" if was_alive else (obs[-1]["end"] if obs else "?")}
+        end["limit"] = limit
         end["impl"] = f"alive=0 end={end['end']} epilogue={end['epilogue']}" if done else "loop-still-running-after-eof"
         return obs, end
     finally:
@@ -232,9 +233,9 @@ def drive(real, script):
     return obs, end
 
 
-def lean_lines(real, obs):
-    """the model's side of one connection: `model`, `copen 0`, one line per observed event, `ceof`"""
-    lines = ["model " + real.spec, "copen 0"]
+def lean_lines(real, obs, limit=65536):
+    """the model's side of one connection: `model`, `copen 0 <limit>`, one line per observed event, `ceof`"""
+    lines = ["model " + real.spec, f"copen 0 {limit}"]
     for o in obs:
         lines.append(f"{o['op']} {o['start']} {o['stop']} {o['orc']}")
     lines.append("ceof")
